@@ -66,7 +66,8 @@ def KPos (lt : K → K → Bool) (t : Tree K V) : Kont K V → Prop
   | .upChild key _ _ parent index _ =>
     InBounds lt t key parent ∧ index = searchLE lt key (keysOf t parent)
   | .upSib key _ _ _ _ sib => InBounds lt t key sib
-  | .upCallback key _ leaf _ => InBounds lt t key leaf
+  | .upCallback key _ leaf arg =>
+    InBounds lt t key leaf ∧ ∃ sh, t.look leaf = some sh ∧ arg = Spec.lookup lt (sh.keys.zip sh.vals) key
   | .delLeft key _ node index _ _ =>
     OnRoute lt t key node ∧ index = searchLE lt key (keysOf t node)
   | .delChild key _ node index _ _ _ =>
